@@ -793,3 +793,168 @@ pub fn long_name_packets() -> Vec<RefPacket> {
     }
     out
 }
+
+
+/// Every value of every 8- and 16-bit field, walking-bit values of wider fields: one tuple per
+/// (field, value), all other fields at their defaults. Calls `f(code, vals)`.
+pub fn field_sweep(sch: &TypeSchema, f: &mut dyn FnMut(&[Val])) {
+    let base = default_vals(sch);
+    let kinds = val_kinds(sch);
+    for (i, k) in kinds.iter().enumerate() {
+        let mut x = base.clone();
+        match k {
+            Kind::U8 => {
+                for v in 0..=255u8 {
+                    if sch.code == 29 && i == 0 && v != 0 {
+                        continue; // LOC version
+                    }
+                    x[i] = Val::U8(v);
+                    f(&x);
+                }
+            }
+            Kind::U16 => {
+                for v in 0..=65535u16 {
+                    x[i] = Val::U16(v);
+                    f(&x);
+                }
+            }
+            Kind::U24 => {
+                for b in 0..24 {
+                    x[i] = Val::U24(1 << b);
+                    f(&x);
+                    x[i] = Val::U24(!(1u32 << b) & 0xff_ffff);
+                    f(&x);
+                }
+            }
+            Kind::U32 => {
+                for b in 0..32 {
+                    x[i] = Val::U32(1 << b);
+                    f(&x);
+                    x[i] = Val::U32(!(1u32 << b));
+                    f(&x);
+                }
+            }
+            Kind::I32 => {
+                for b in 0..32 {
+                    x[i] = Val::I32((1u32 << b) as i32);
+                    f(&x);
+                    x[i] = Val::I32(!(1u32 << b) as i32);
+                    f(&x);
+                }
+            }
+            Kind::U48 => {
+                for b in 0..48 {
+                    x[i] = Val::U48(1u64 << b);
+                    f(&x);
+                }
+            }
+            Kind::Fixed(n) => {
+                for b in 0..n * 8 {
+                    let mut bytes = vec![0u8; *n];
+                    bytes[b / 8] = 0x80 >> (b % 8);
+                    x[i] = Val::Fixed(B(bytes));
+                    f(&x);
+                }
+            }
+            Kind::Str => {
+                for n in [3usize, 31, 32, 63, 64, 100, 127, 128, 129, 191, 192, 200, 254] {
+                    x[i] = Val::Str(bytes_n(n, n as u8));
+                    f(&x);
+                }
+            }
+            Kind::Tail => {
+                for n in [3usize, 16, 17, 31, 32, 33, 64, 127, 128, 255, 256, 257, 511, 512, 513, 1000, 4095, 4096, 5000] {
+                    x[i] = Val::Tail(bytes_n(n, n as u8));
+                    f(&x);
+                }
+            }
+            Kind::Name(_) => {
+                for nl in [5usize, 8, 16, 33, 64, 100, 127] {
+                    x[i] = Val::Name(RefName((0..nl).map(|j| B(vec![b'a' + (j % 26) as u8])).collect()));
+                    f(&x);
+                }
+                for ll in [2usize, 7, 8, 15, 16, 17, 31, 32, 33, 62] {
+                    x[i] = Val::Name(RefName(vec![label_n(ll, b'm'), b(b"example")]));
+                    f(&x);
+                }
+            }
+            Kind::Strs => {
+                for n in [3usize, 5, 8, 17, 40] {
+                    x[i] = Val::Strs((0..n).map(|j| bytes_n(j % 7, j as u8)).collect());
+                    f(&x);
+                }
+            }
+            Kind::Params => {
+                for n in [4usize, 7, 9, 16] {
+                    x[i] = Val::Params((0..n).map(|j| ((j * 3) as u16, bytes_n(j % 5, j as u8))).collect());
+                    f(&x);
+                }
+                for key in [5u16, 6, 7, 8, 100, 255, 256, 32768, 65279, 65280] {
+                    x[i] = Val::Params(vec![(key, b(&[1, 2]))]);
+                    f(&x);
+                }
+            }
+            Kind::Windows => {
+                for n in [3usize, 6, 20] {
+                    x[i] = Val::Windows((0..n).map(|j| ((j * 7) as u8, bytes_n(1 + j % 32, j as u8))).collect());
+                    f(&x);
+                }
+                for w in [3u8, 100, 127, 128, 254] {
+                    x[i] = Val::Windows(vec![(w, B(vec![0x55; 17]))]);
+                    f(&x);
+                }
+            }
+            Kind::GwType | Kind::Gateway => {}
+        }
+    }
+}
+
+/// Packets with more than a handful of entries of mixed types, and packets whose total size
+/// straddles the sizes implementations tend to special-case.
+pub fn many_and_sized_packets() -> Vec<RefPacket> {
+    let mut out = Vec::new();
+    let base: Vec<RefRR> = SCHEMAS.iter().map(base_rr).collect();
+    for n in [5usize, 7, 10, 17, 33, 39, 64, 100] {
+        let mut p = RefPacket { id: n as u16, flags: F_QR | F_AA, ..Default::default() };
+        for i in 0..n {
+            let mut r = base[(i * 7) % base.len()].clone();
+            r.name = RefName(vec![b(format!("n{}", i % 5).as_bytes()), b(b"example"), b(b"com")]);
+            r.ttl = i as u32 * 1000 + 7;
+            match i % 4 {
+                0 | 1 => p.answers.push(r),
+                2 => p.authority.push(r),
+                _ => p.additional.push(r),
+            }
+        }
+        for i in 0..(n / 3).max(1) {
+            p.questions.push(RefQ { name: RefName(vec![b(format!("n{}", i % 5).as_bytes()), b(b"example"), b(b"com")]), qtype: [1u16, 28, 33, 255][i % 4], qclass: 1, unicast: i % 2 == 1 });
+        }
+        if n % 2 == 1 {
+            p.opt = Some(RefOpt { udp: 1232, version: 0, options: (0..n.min(20)).map(|j| (j as u16 + 1, bytes_n(j % 9, j as u8))).collect() });
+        }
+        out.push(p);
+    }
+    for size in [500usize, 511, 512, 513, 899, 900, 901, 1024, 1232, 1233, 1472, 1500, 2048, 4095, 4096, 4097, 8191, 8192, 8999, 9000, 9001, 12000, 20000] {
+        // question + A + filler TXT (several strings) sized so that the plain encoding has exactly `size` bytes
+        let mut p = RefPacket { id: 0x512e, flags: F_QR, ..Default::default() };
+        p.questions.push(RefQ { name: RefName::txt("size.example.com"), qtype: 16, qclass: 1, unicast: false });
+        p.answers.push(rr("size.example.com", RefRData::Typed { code: 1, vals: vec![Val::U32(0x7f000001)] }));
+        p.additional.push(rr("size.example.com", RefRData::Typed { code: 16, vals: vec![Val::Strs(vec![b(b"x")])] }));
+        let now = p.encode(0).len();
+        if size <= now {
+            continue;
+        }
+        let mut need = size - now; // bytes to add to the TXT RDATA (each string costs 1 + len)
+        let mut strs = vec![b(b"x")];
+        while need > 0 {
+            let l = (need - 1).min(255);
+            strs.push(bytes_n(l, need as u8));
+            need -= 1 + l;
+        }
+        if let RefRData::Typed { vals, .. } = &mut p.additional[0].rdata {
+            vals[0] = Val::Strs(strs);
+        }
+        out.push(p);
+    }
+    out
+}
